@@ -314,11 +314,14 @@ struct Eval {
     has_border: bool,
     has_noise: bool,
     exact_boundary: bool,
+    shared_border: bool,       // a non-core point within eps of core points of two different clusters
+    predict_tie: bool,         // a query row whose maximal vote count is reached by two labels (noise included)
+    border_differs: bool,      // a border point labelled differently by the two backends (allowed by the property)
 }
 
 /// Evaluate the whole property on one case (both backends, cross-backend clause, predict).
 fn eval_case(case: &Case) -> Eval {
-    let mut e = Eval { failure: None, skipped: false, nontrivial: false, nclusters: 0, has_border: false, has_noise: false, exact_boundary: false };
+    let mut e = Eval { failure: None, skipped: false, nontrivial: false, nclusters: 0, has_border: false, has_noise: false, exact_boundary: false, shared_border: false, predict_tie: false, border_differs: false };
     let dxx = match guard(|| dists(case.met, &case.x, &case.x)) {
         Ok(d) => d,
         Err(m) => {
@@ -375,6 +378,27 @@ fn eval_case(case: &Case) -> Eval {
             return e;
         }
     }
+    e.border_differs = (0..case.x.len()).any(|i| a.labels[i] != b.labels[i]);
+    e.shared_border = (0..case.x.len()).any(|i| {
+        !core[i] && {
+            let mut ls: Vec<i64> = nbh[i].iter().filter(|&&j| core[j]).map(|&j| a.labels[j]).collect();
+            ls.sort();
+            ls.dedup();
+            ls.len() >= 2
+        }
+    });
+    e.predict_tie = qn.iter().any(|nb| {
+        let mut cnt = vec![0usize; a.c as usize + 1];
+        for &j in nb {
+            if a.labels[j] < 0 {
+                cnt[a.c as usize] += 1
+            } else {
+                cnt[a.labels[j] as usize] += 1
+            }
+        }
+        let best = cnt.iter().cloned().max().unwrap_or(0);
+        best > 0 && cnt.iter().filter(|&&v| v == best).count() >= 2
+    });
     e.nclusters = a.c;
     e.has_border = (0..case.x.len()).any(|i| !core[i] && a.labels[i] >= 0);
     e.has_noise = a.labels.iter().any(|&l| l == -1);
@@ -436,6 +460,15 @@ fn search_case(out: &mut Out, case: &Case, family: &str) {
     }
     if e.exact_boundary {
         out.count("search:with-distance-exactly-eps");
+    }
+    if e.shared_border {
+        out.count("search:with-border-point-between-two-clusters");
+    }
+    if e.predict_tie {
+        out.count("search:with-tied-predict-vote");
+    }
+    if e.border_differs {
+        out.count("search:border-label-differs-between-backends");
     }
     out.count(&format!("search:n<={}", [1usize, 7, 20, 50, 100, 150, 100000].iter().find(|&&b| case.x.len() <= b).unwrap()));
     if let Some((oracle, what)) = e.failure {
@@ -514,6 +547,53 @@ fn corr_case(out: &mut Out, case: &Case, euclid_in_coq: bool) {
             lin = Some((nbs, fit));
         }
     }
+}
+
+/// Small lattice cases aimed at the order-sensitive corners: a border point between two clusters,
+/// tied predict votes.  Only the exact-label groups are emitted.
+fn corr_small(out: &mut Out, case: &Case) {
+    let input = case.json();
+    for &cover in &[false, true] {
+        let g = if cover { "cover" } else { "linear" };
+        if let (Ok(Some(fit)), Ok((nbs, nbq))) = (impl_run(case, cover), backend_nbs(case, cover)) {
+            out.corr(
+                &format!("fit_{}", g),
+                format!("corr_fit {} {} {} {}", coq_n(case.minpts), coq_nbs(&nbs), coq_list_z(&fit.labels), coq_z(fit.c)),
+                input.clone(),
+            );
+            if !cover || case.x.len() % 2 == 0 {
+                out.corr(
+                    &format!("predict_{}", g),
+                    format!("corr_predict {} {} {} {}", coq_list_z(&fit.labels), coq_n(fit.c as usize), coq_nbs(&nbq), coq_labels_f(&fit.pred)),
+                    input.clone(),
+                );
+            }
+        }
+    }
+}
+
+fn gen_small_lattice(rng: &mut Rng) -> Case {
+    let two_d = rng.chance(0.35);
+    let n = rng.usize_in(4, 14);
+    let (x, q): (Vec<Vec<f64>>, Vec<Vec<f64>>) = if two_d {
+        let (w, h) = (rng.int(2, 5), rng.int(1, 3));
+        let x = (0..n).map(|_| vec![rng.int(0, w) as f64, rng.int(0, h) as f64]).collect();
+        let mut q: Vec<Vec<f64>> = vec![];
+        for a in 0..=w {
+            for b in 0..=h {
+                q.push(vec![a as f64, b as f64]);
+            }
+        }
+        (x, q)
+    } else {
+        let r = rng.int(4, 12);
+        let x = (0..n).map(|_| vec![rng.int(0, r) as f64]).collect();
+        let q = (-1..=r + 1).map(|v| vec![v as f64]).collect();
+        (x, q)
+    };
+    let met = if two_d && rng.chance(0.4) { Met::Manhattan } else { Met::Euclid };
+    let eps = *rng.pick(&[1.0, 1.0, 2.0, 2f64.sqrt(), 1.5]);
+    Case { x, q, eps, minpts: rng.usize_in(2, 5), met }
 }
 
 fn corr_param_errors(out: &mut Out, case: &Case) {
@@ -777,6 +857,33 @@ fn main() {
         }
     }
 
+    // small lattice cases, preferring a border point between two clusters or a tied predict vote
+    let (quota, tries) = if a.thorough { (240, 40000) } else { (70, 12000) };
+    let (mut kept, mut kept_shared, mut kept_tie) = (0usize, 0usize, 0usize);
+    for t in 0..tries {
+        if kept >= quota {
+            break;
+        }
+        let case = gen_small_lattice(&mut rng);
+        let e = eval_case(&case);
+        if e.skipped || e.failure.is_some() {
+            continue;
+        }
+        let want = (e.shared_border && kept_shared < quota / 2) || (e.predict_tie && e.nclusters >= 2 && kept_tie < quota / 2) || t % 400 == 0;
+        if want {
+            corr_small(&mut out, &case);
+            kept += 1;
+            if e.shared_border {
+                kept_shared += 1;
+                out.count("corr-small:with-border-point-between-two-clusters");
+            }
+            if e.predict_tie {
+                kept_tie += 1;
+                out.count("corr-small:with-tied-predict-vote");
+            }
+        }
+    }
+
     // ---- search: exhaustive small scopes ----
     let line: Vec<Vec<f64>> = (0..5).map(|v| vec![v as f64]).collect();
     let grid: Vec<Vec<f64>> = (0..6).map(|v| vec![(v % 3) as f64, (v / 3) as f64]).collect();
@@ -788,12 +895,13 @@ fn main() {
         exhaustive(&mut out, &grid, 5, &[1.0, 2.0], &[2, 3, 4], &[Met::Manhattan], "exhaustive-2d");
     } else {
         exhaustive(&mut out, &line[..4], 6, &[1.0, 2.0], &[1, 2, 3, 4], &[Met::Euclid], "exhaustive-1d");
+        exhaustive(&mut out, &line, 6, &[1.0], &[2, 3], &[Met::Manhattan], "exhaustive-1d");
         exhaustive(&mut out, &grid, 4, &[1.0, s2, 2.0], &[1, 2, 3], &[Met::Euclid], "exhaustive-2d");
         exhaustive(&mut out, &grid, 5, &[1.0], &[2, 3], &[Met::Manhattan], "exhaustive-2d");
     }
 
     // ---- search: random families, 1..150 points, 1..4 dimensions ----
-    let nrand = if a.thorough { 12000 } else { 1500 };
+    let nrand = if a.thorough { 20000 } else { 4000 };
     for i in 0..nrand {
         let (case, family) = gen_case(&mut rng, 150, 6);
         search_case(&mut out, &case, family);
